@@ -3,7 +3,7 @@ CONSTANTS MaxPages = 4
  EndAt = "lastpage"
  Lens = {1,2,4}
  Chunk = 4
- Read = 2
+ Reads = {2}
  BackUpRule = "begin"
  HandOver = "refetch"
 INVARIANT Terminates
